@@ -106,7 +106,7 @@ def run_check(prop, tier, replay=None):
         if not lb['ok']:
             broken.append({'kind': 'theorem', 'what': 'lake build %s failed' % prop.module,
                            'detail': first_error(lb['out'])})
-        au = core.audit(prop.module, prop.theorems, [e for e in prop.extra_modules if '.Props.' in e]) if lb['ok'] else {'ok': False, 'axioms': {}, 'forbidden': [], 'bad_axioms': {}, 'missing': list(prop.theorems)}
+        au = core.audit(prop.module, prop.theorems, list(prop.extra_modules)) if lb['ok'] else {'ok': False, 'axioms': {}, 'forbidden': [], 'bad_axioms': {}, 'missing': list(prop.theorems)}
         report['steps']['audit'] = au
         if lb['ok'] and not au['ok']:
             broken.append({'kind': 'audit', 'what': 'audit of %s failed' % prop.module,
